@@ -156,6 +156,9 @@ type Method struct {
 	HTTP    *HTTP
 	Headers []Header
 	Comment string
+	// ClientStream / ServerStream: `rpc M(stream In) returns (stream Out)` (valid protobuf; the HTTP generators
+	// have no streaming transport)
+	ClientStream, ServerStream bool
 }
 
 // Service definition.
